@@ -703,14 +703,14 @@ def _lvl(pid, level, text, technique=None, note=None):
         P["level_note"] = note
 
 
-_lvl("C01", "proof THREE-OPERATOR PIPELINE single router -> spanning-tree resolver -> MULTIPLE-direction router (ClosedC01Pipeline.lean): grid_C01_mst_multi (carve, Kruskal, any grid with EnvOk; raster_/mesh_/profile_ instances, non-vacuity examples): the multi router run on the returned elevations leaves no unmasked node connected to a base level as a pit, all its receivers are strictly lower unmasked neighbours, the resolver's own receiver is among them, no flow path has a cycle, and EVERY maximal flow path from such a node ends at an unmasked base level. For basic the statement is FALSE and the negation is proved on a concrete instance (basic_multi_pit, decide +kernel on the executed model: the pit is drained to a non-neighbour pass node, so the neighbour-based router that runs next leaves it its own receiver) - this is the formal counterpart of the known finding D11 (basic_then_multi), which the check replays on the implementation. PIPELINE pflood -> single router (ClosedPfloodPipeline.lean): grid_pipeline_pflood_single states C01, C06, C03 conservation and C10 for the whole operator sequence with the hypotheses stated once; grid_reach_iff_connBase identifies the flood's reachability with 'connected through unmasked neighbours to an unmasked base level'.",
-     "END-TO-END theorem on the executed composition priority flood + single-direction router (Fs.C01.C01_pflood_singleRouter, any grid size / topology handed over by the grid, any elevations, masks and base-level sets, sequential or multi-threaded router variant; assumptions: strict-weak-order laws of the comparison, x < nextUp x, slope towards a lower neighbour above -DBL_MAX, neighbour lists in range and symmetric, base-level list duplicate-free): (1) base-level and masked nodes are their own receiver, (2) every proper step goes to an unmasked neighbour with strictly lower RETURNED elevation, (3) every node connected through unmasked neighbours to an unmasked base level reaches a base-level node after finitely many receiver steps and stops there, (4) no cycle. It rests on pflood_terminates (potential-function proof that the flood empties both queues within its fuel n+1), pflood_parent / pflood_complete (flood invariants), C04.routed_row (router scan) and C06.singleRouter_graph. Also step_wf (descent => well-founded) and tilt_descends (strict descent after the spanning-tree tilt pass). C01_pflood_multiRouter: the same for flood + multiple-direction router (every proper receiver is an unmasked neighbour with strictly lower returned elevation; a node connected to a base level is never a pit and all its receivers stay connected; 'flows to' is well-founded, no cycle, every path has fewer than n steps; every maximal path from a connected node ends at a base level, and one exists). resolve_c01_singleRouter: the same for the executed SPANNING-TREE resolver (Fs.Mst.resolve with Kruskal, carve or basic) after the single router: base-level and masked nodes stay their own receiver; the re-routed receiver table is again a forest (so the rebuilt donors/orders are valid by C06); every proper step strictly decreases the RETURNED (tilted) elevation; carve never hangs; every unmasked node whose basin is reached from the root - in particular every node connected through unmasked neighbours to an unmasked base level (resolve_c01_connected) - ends at a base-level node. Built from routeCarve_spec (path reversal), routeBasic_spec, the fold over tree edges (rerouted_forest / rerouted_base), orient_spec + orient_reached_iff (the executed orientation returns an arborescence from the root: each reached basin is the head of exactly one edge, depths increase, reached = connected to the root in the tree), kruskal_keeps_virtual, connect_basins (C15) and tilt_descends; extra assumptions: elevations above -DBL_MAX (a real pass at -DBL_MAX would tie with the virtual edges - counterexample in C01MstExample), arrays fit in memory, the weight-sorted permutation check the harness performs. For Boruvka the same conclusions hold under the two tree facts (forest, virtual edges kept) that the model driver CERTIFIES on every resolver run of either method (line cert_mst: certOk on the raw tree + all virtual edges present): resolve_c01_tree. Certificate: on every scenario the model driver runs the Lean checker checkFlow on the receivers and elevation REPORTED BY THE C++ (soundness checkFlow_sound / checkFlow_paths: accepted => terminal nodes self, strict descent to unmasked (neighbour) nodes, no pit among nodes connected to a base level, hence every maximal path ends at a base level). raster_C01_pflood_single / _multi / raster_C01_mst: Closed corollaries (Closed.lean): the topology hypotheses (neighbours in range, row width <= n_neighbors_max, symmetry with multiplicity, positive distances, slope-above-lowest on neighbour slots) are DISCHARGED for the topology `rasterTopo` the executed raster model reports, for every raster with >= 2 nodes per axis and positive spacing over any ordered field - so the statements below hold for every such raster, mask, base-level set and elevation with no hypothesis about the grid left; all their hypotheses are shown satisfiable on a concrete 3x3 instance over Q (non-vacuity).",
+_lvl("C01", "proof",
+     "END-TO-END theorem on the executed composition priority flood + single-direction router (Fs.C01.C01_pflood_singleRouter, any grid size / topology handed over by the grid, any elevations, masks and base-level sets, sequential or multi-threaded router variant; assumptions: strict-weak-order laws of the comparison, x < nextUp x, slope towards a lower neighbour above -DBL_MAX, neighbour lists in range and symmetric, base-level list duplicate-free): (1) base-level and masked nodes are their own receiver, (2) every proper step goes to an unmasked neighbour with strictly lower RETURNED elevation, (3) every node connected through unmasked neighbours to an unmasked base level reaches a base-level node after finitely many receiver steps and stops there, (4) no cycle. It rests on pflood_terminates (potential-function proof that the flood empties both queues within its fuel n+1), pflood_parent / pflood_complete (flood invariants), C04.routed_row (router scan) and C06.singleRouter_graph. Also step_wf (descent => well-founded) and tilt_descends (strict descent after the spanning-tree tilt pass). C01_pflood_multiRouter: the same for flood + multiple-direction router (every proper receiver is an unmasked neighbour with strictly lower returned elevation; a node connected to a base level is never a pit and all its receivers stay connected; 'flows to' is well-founded, no cycle, every path has fewer than n steps; every maximal path from a connected node ends at a base level, and one exists). resolve_c01_singleRouter: the same for the executed SPANNING-TREE resolver (Fs.Mst.resolve with Kruskal, carve or basic) after the single router: base-level and masked nodes stay their own receiver; the re-routed receiver table is again a forest (so the rebuilt donors/orders are valid by C06); every proper step strictly decreases the RETURNED (tilted) elevation; carve never hangs; every unmasked node whose basin is reached from the root - in particular every node connected through unmasked neighbours to an unmasked base level (resolve_c01_connected) - ends at a base-level node. Built from routeCarve_spec (path reversal), routeBasic_spec, the fold over tree edges (rerouted_forest / rerouted_base), orient_spec + orient_reached_iff (the executed orientation returns an arborescence from the root: each reached basin is the head of exactly one edge, depths increase, reached = connected to the root in the tree), kruskal_keeps_virtual, connect_basins (C15) and tilt_descends; extra assumptions: elevations above -DBL_MAX (a real pass at -DBL_MAX would tie with the virtual edges - counterexample in C01MstExample), arrays fit in memory, the weight-sorted permutation check the harness performs. For Boruvka the same conclusions hold under the two tree facts (forest, virtual edges kept) that the model driver CERTIFIES on every resolver run of either method (line cert_mst: certOk on the raw tree + all virtual edges present): resolve_c01_tree. Certificate: on every scenario the model driver runs the Lean checker checkFlow on the receivers and elevation REPORTED BY THE C++ (soundness checkFlow_sound / checkFlow_paths: accepted => terminal nodes self, strict descent to unmasked (neighbour) nodes, no pit among nodes connected to a base level, hence every maximal path ends at a base level). raster_C01_pflood_single / _multi / raster_C01_mst: Closed corollaries (Closed.lean): the topology hypotheses (neighbours in range, row width <= n_neighbors_max, symmetry with multiplicity, positive distances, slope-above-lowest on neighbour slots) are DISCHARGED for the topology `rasterTopo` the executed raster model reports, for every raster with >= 2 nodes per axis and positive spacing over any ordered field - so the statements below hold for every such raster, mask, base-level set and elevation with no hypothesis about the grid left; all their hypotheses are shown satisfiable on a concrete 3x3 instance over Q (non-vacuity). THREE-OPERATOR PIPELINE single router -> spanning-tree resolver -> MULTIPLE-direction router (ClosedC01Pipeline.lean): grid_C01_mst_multi (carve, Kruskal, any grid with EnvOk; raster_/mesh_/profile_ instances, non-vacuity examples): the multi router run on the returned elevations leaves no unmasked node connected to a base level as a pit, all its receivers are strictly lower unmasked neighbours, the resolver's own receiver is among them, no flow path has a cycle, and EVERY maximal flow path from such a node ends at an unmasked base level. For basic the statement is FALSE and the negation is proved on a concrete instance (basic_multi_pit, decide +kernel on the executed model: the pit is drained to a non-neighbour pass node, so the neighbour-based router that runs next leaves it its own receiver) - this is the formal counterpart of the known finding D11 (basic_then_multi), which the check replays on the implementation. PIPELINE pflood -> single router (ClosedPfloodPipeline.lean): grid_pipeline_pflood_single states C01, C06, C03 conservation and C10 for the whole operator sequence with the hypotheses stated once; grid_reach_iff_connBase identifies the flood's reachability with 'connected through unmasked neighbours to an unmasked base level'.",
      "Lean 4 end-to-end theorems on the executed flood+router and spanning-tree resolver (loop invariants, potential-function termination, path-reversal / forest / arborescence proofs, composition) + bit-exact differential correspondence + reachability oracle")
 _lvl("C02", "proof",
      "Theorems about the executed priority flood Fs.Flow.pflood (any grid size, any elevations over a linear order with strictly increasing monotone nextUp): pflood_ge_input (never below the input), pflood_fixed (bit-identical at base-level and masked nodes), pflood_ge_spill (every closed node is reached from an unmasked base level by an unmasked-neighbour path whose input elevations never exceed its filled elevation: f >= spill level), pflood_le_spill (for every such path and every bound v on the input along it, f <= v raised by n+2 floating-point increments: f <= spill + (n+2) ulps). They are obtained from the invariant proofs on the ghost-instrumented loop (Fs.UB) through an erasure theorem (run_erase, ubInit_erase: forgetting the ghost counters turns each instrumented step into the executed step). 'closed' = reached by the flood; that all unmasked-connected nodes are closed when the loop exits by itself is pflood_complete. The spanning-tree variants (Kruskal/Boruvka x basic/carve) are modelled statement by statement, compared bit for bit and checked by the independent Bellman minimax oracle (two-sided bound, agreement of all variants) - not proved. Spanning-tree variants (C02Mst*.lean, Kruskal, carve and basic): resolve_ge_input (never below the input), resolve_fixed / _self / _above (bit-identical at base-level and masked nodes, at every self-receiver, and wherever the node was already above its new receiver's final level: terrain that already drains keeps its elevation), resolve_exact_shape / resolve_chain (every raised node is exactly t floating-point increments above the INPUT elevation of the node t links down its new flow path, t + 1 <= n: 'at most one increment per grid node'), resolve_ge_spill_carve (carve: the new flow path is an unmasked-neighbour path to a base level along which the input never exceeds the node's returned elevation: >= spill level); raster_C02_mst closes them over rasters. UPPER BOUND (C02MstUpper*.lean, Kruskal, carve AND basic): resolve_c02_upper_singleRouter - for every unmasked node y, every unmasked-neighbour path from a base level to y and every bound v on the input elevations along it, the returned elevation is at most v raised by n floating-point increments, i.e. <= (spill level)+n ulps; proof: the new flow path only visits nodes whose input is <= max(f y, passes of the tree edges above y's basin) (newpath_bounded), any neighbour path crosses basin borders at pairs at least as high as the stored lowest passes (connect_basins theorems), hence the basins are joined within weight v in the basin graph and, by the bottleneck property of the Kruskal tree (C15Bottleneck) transported along the proved orientation, every tree edge above y's basin has pass <= v (low_of_path). resolve_c02_spill_level_singleRouter states lower and upper bound together for carve. LOWER BOUND FOR BASIC (C02MstBasic*.lean): resolve_ge_spill_basic - for basic the new receiver path leaves the neighbour relation (the pit jumps to the pass node), so the witness is a different path: [witness of the outflow pass node] ++ inflow pass node ++ [old receiver path down to the pit] ++ [old path from the pit up to y, reversed], all of whose INPUT elevations are <= the returned elevation of y (induction over the depth of the basin in the oriented tree; fold_basic2 records which branch routeBasic took); resolve_ge_spill (both methods), resolve_c02_spill_level_singleRouter_any (lower and upper bound together, carve AND basic) and its closed forms raster_/mesh_/profile_C02_mst_spill_level_any (ClosedBasic.lean) with non-vacuity instances. Left to per-run certificate + oracle + agreement of all variants: Boruvka.",
      "Lean 4 loop-invariant proofs (ghost-instrumented flood + erasure to the executed definitions) + bit-exact correspondence + independent minimax-spill oracle")
-_lvl("C03", "proof AFTER THE SINK RESOLVER (ClosedC03.lean): grid_C03_resolve - recurrence, conservation over the terminal nodes and the lower bound also hold for accumulate on the graph the spanning-tree resolver returns (single router, Kruskal, carve or basic), on every grid with EnvOk (raster, mesh, profile instances via raster_envOk / mesh_envOk / profile_envOk), non-vacuity instances over Q.",
-     "Theorems about the executed definitions Fs.Flow.accStep/accumulate instantiated over an arbitrary field: accStep_get, sweep_recurrence / accumulate_recurrence (for every graph and every sweep order - no node after one of its proper receivers, which C06 proves for the executed orders - every entry equals source*area plus the accumulated values of its donors weighted by their partition fractions; any size, single or multiple receivers), sweep_conservation / accumulate_conservation (if every non-terminal node's weights sum to one and it is not its own receiver - C05 - the sum over terminal nodes equals the source integrated over the grid), contrib_nonneg (non-negative source and weights => value >= local contribution). The Float instance of the same definitions is compared bit for bit with all four C++ overloads (which must agree with each other); rounding is covered by the exact-rational oracle with an error bound. multi_/single_accumulate_recurrence, _conservation, _nonneg (C03E2E.lean): the recurrence, conservation over terminal nodes and the lower bound for non-negative sources hold for the graphs the executed routers build, with only topology hypotheses left; raster_C03_*_conservation: Closed corollaries (Closed.lean): the topology hypotheses (neighbours in range, row width <= n_neighbors_max, symmetry with multiplicity, positive distances, slope-above-lowest on neighbour slots) are DISCHARGED for the topology `rasterTopo` the executed raster model reports, for every raster with >= 2 nodes per axis and positive spacing over any ordered field - so the statements below hold for every such raster, mask, base-level set and elevation with no hypothesis about the grid left; all their hypotheses are shown satisfiable on a concrete 3x3 instance over Q (non-vacuity).",
+_lvl("C03", "proof",
+     "Theorems about the executed definitions Fs.Flow.accStep/accumulate instantiated over an arbitrary field: accStep_get, sweep_recurrence / accumulate_recurrence (for every graph and every sweep order - no node after one of its proper receivers, which C06 proves for the executed orders - every entry equals source*area plus the accumulated values of its donors weighted by their partition fractions; any size, single or multiple receivers), sweep_conservation / accumulate_conservation (if every non-terminal node's weights sum to one and it is not its own receiver - C05 - the sum over terminal nodes equals the source integrated over the grid), contrib_nonneg (non-negative source and weights => value >= local contribution). The Float instance of the same definitions is compared bit for bit with all four C++ overloads (which must agree with each other); rounding is covered by the exact-rational oracle with an error bound. multi_/single_accumulate_recurrence, _conservation, _nonneg (C03E2E.lean): the recurrence, conservation over terminal nodes and the lower bound for non-negative sources hold for the graphs the executed routers build, with only topology hypotheses left; raster_C03_*_conservation: Closed corollaries (Closed.lean): the topology hypotheses (neighbours in range, row width <= n_neighbors_max, symmetry with multiplicity, positive distances, slope-above-lowest on neighbour slots) are DISCHARGED for the topology `rasterTopo` the executed raster model reports, for every raster with >= 2 nodes per axis and positive spacing over any ordered field - so the statements below hold for every such raster, mask, base-level set and elevation with no hypothesis about the grid left; all their hypotheses are shown satisfiable on a concrete 3x3 instance over Q (non-vacuity). AFTER THE SINK RESOLVER (ClosedC03.lean): grid_C03_resolve - recurrence, conservation over the terminal nodes and the lower bound also hold for accumulate on the graph the spanning-tree resolver returns (single router, Kruskal, carve or basic), on every grid with EnvOk (raster, mesh, profile instances via raster_envOk / mesh_envOk / profile_envOk), non-vacuity instances over Q.",
      "Lean 4 induction over the sweep + sum-exchange conservation proof (Mathlib List.sum) on the executed definitions + bit-exact correspondence of the four overloads + exact-rational oracle")
 _lvl("C04", "proof",
      "END-TO-END theorems on the executed Fs.Flow.singleRouter (sequential and multi-threaded variant, any topology): rows (each node has exactly one receiver, weight one), terminal_row (base-level and masked nodes are their own receiver at distance zero), routed_row (every other node satisfies RoutedSpec: own receiver exactly when no unmasked neighbour is strictly lower, otherwise an unmasked strictly lower neighbour with its grid distance whose slope no other lower unmasked neighbour exceeds), recv_lower; built on route_spec (fold invariant of the neighbour scan over any strict weak order). Oracle recomputes slopes on the implementation's output. raster_C04: Closed corollaries (Closed.lean): the topology hypotheses (neighbours in range, row width <= n_neighbors_max, symmetry with multiplicity, positive distances, slope-above-lowest on neighbour slots) are DISCHARGED for the topology `rasterTopo` the executed raster model reports, for every raster with >= 2 nodes per axis and positive spacing over any ordered field - so the statements below hold for every such raster, mask, base-level set and elevation with no hypothesis about the grid left; all their hypotheses are shown satisfiable on a concrete 3x3 instance over Q (non-vacuity). The earlier form of the slope hypothesis (quantified over arbitrary distances) was unsatisfiable over a field and has been replaced by HLow / HSlope (neighbour slots only), which raster_hlow proves for every raster.",
@@ -733,8 +733,8 @@ _lvl("C09", "proof",
 _lvl("C17", "proof",
      "Theorems on the executed grid model (constants regenerated from the source): prio_order (fixed value > fixed gradient > looped > core, decide over the regenerated precedences), paint_spec (for every raster with >= 2 nodes per axis: core strictly inside, the border's status on each non-corner border node, at each corner the one of the two meeting statuses with the larger precedence), rasterStatus_ok_iff / _error_iff / _error_kind / rasterStatus_ok / rasterStatus_ok_distinct (construction succeeds iff looped borders are symmetric and no override is out of range, looped, or on a looped node; which error kind the first offending entry yields; otherwise the array is the painted array with the overrides applied and looped appears exactly on the looped borders), the same for the profile grid (profileStatus_*), sortKeys_perm / sorted (std::map order), iterFwd_eq / iterRev_eq (iteration filtered by any predicate yields exactly (range size).filter p, resp. its reverse, for every size and predicate; built on skipFwd_stop). Triangular mesh (C17Mesh.lean, on the executed Fs.MeshGrid.statusMap / statusArr): meshStatusMap_ok_iff (accepted iff no entry is looped or out of range), meshStatusMap_error_kind (the first offending entry decides; looped is tested before the range), meshStatusMap_ok / _ok_distinct (empty map: boundary nodes fixed value, others core; otherwise every node core except the given entries, last entry wins; a mesh never has a looped node), meshStatusArr_spec (array accepted iff its length is the number of nodes, then copied). Default base levels = fixed-value nodes is a definition of the driver. Compared exhaustively over all 4^4 / 4^2 border mixes on small shapes, plus malformed override maps with error kinds, iteration in both directions for every filter.",
      "Lean 4 proofs on the executed status/iteration model (omega, decide over regenerated constants, list induction) + exhaustive border-mix correspondence")
-_lvl("C19", "proof AFTER THE SINK RESOLVER (ClosedC19Resolve.lean): grid_resolve_mask_closed (fold invariant over routeBasic / carveLoop: an unmasked node's rewritten receiver is unmasked) and grid_C19_resolve - all clauses of basins_spec for the graph the spanning-tree resolver returns (Kruskal, carve and basic), plus the pay-off of the resolver: (8) no remaining pit is connected through unmasked neighbours to an unmasked base level, (9) if every unmasked node is so connected there is no pit at all; raster_/mesh_/profile_ instances, computed examples (pits [8] before, [] after, both methods; a masked-off region keeps its pit). AFTER THE PRIORITY FLOOD (ClosedPfloodPipeline.lean): grid_C19_pflood - all clauses for the single router's graph on the filled elevation, no remaining pit is reached by the flood / connected to a base level, none at all if every unmasked node is reached, and every reached node carries the label of a base-level outlet; computed examples (pits [8] -> [] on the raster instance, a masked-off region keeps its pit).",
-     "END-TO-END theorem on the executed Fs.Flow.basins over any single-direction graph assembled from a receiver forest (C06.SingleGraph: router output or spanning-tree resolver output) whose unmasked nodes never drain into masked ones (basins_spec): masked nodes get the reserved label; every unmasked node has the label of its receiver; the outlets are exactly the unmasked self-receivers, without duplicates, numbered consecutively from zero in bottom-up order; every unmasked node's label is the index of the outlet it drains to (two unmasked nodes share a label iff they drain to the same outlet; number of distinct labels = number of unmasked outlets); pits = outlets that are not base levels. Built on run_block / block_labels_agree and the block structure of the bottom-up order (dfs_blocks). Certificate: the model driver runs checkBasins on the labels / outlets / pits REPORTED BY THE C++ against the tables it reported at the last update (soundness checkBasins_sound, checkBasins_outlets, checkBasins_drain).",
+_lvl("C19", "proof",
+     "END-TO-END theorem on the executed Fs.Flow.basins over any single-direction graph assembled from a receiver forest (C06.SingleGraph: router output or spanning-tree resolver output) whose unmasked nodes never drain into masked ones (basins_spec): masked nodes get the reserved label; every unmasked node has the label of its receiver; the outlets are exactly the unmasked self-receivers, without duplicates, numbered consecutively from zero in bottom-up order; every unmasked node's label is the index of the outlet it drains to (two unmasked nodes share a label iff they drain to the same outlet; number of distinct labels = number of unmasked outlets); pits = outlets that are not base levels. Built on run_block / block_labels_agree and the block structure of the bottom-up order (dfs_blocks). Certificate: the model driver runs checkBasins on the labels / outlets / pits REPORTED BY THE C++ against the tables it reported at the last update (soundness checkBasins_sound, checkBasins_outlets, checkBasins_drain). AFTER THE SINK RESOLVER (ClosedC19Resolve.lean): grid_resolve_mask_closed (fold invariant over routeBasic / carveLoop: an unmasked node's rewritten receiver is unmasked) and grid_C19_resolve - all clauses of basins_spec for the graph the spanning-tree resolver returns (Kruskal, carve and basic), plus the pay-off of the resolver: (8) no remaining pit is connected through unmasked neighbours to an unmasked base level, (9) if every unmasked node is so connected there is no pit at all; raster_/mesh_/profile_ instances, computed examples (pits [8] before, [] after, both methods; a masked-off region keeps its pit). AFTER THE PRIORITY FLOOD (ClosedPfloodPipeline.lean): grid_C19_pflood - all clauses for the single router's graph on the filled elevation, no remaining pit is reached by the flood / connected to a base level, none at all if every unmasked node is reached, and every reached node carries the label of a base-level outlet; computed examples (pits [8] -> [] on the raster instance, a masked-off region keeps its pit).",
      "Lean 4 fold proofs of the labelling sweep composed with the block structure of the bottom-up order + bit-exact correspondence + partition oracle")
 
 
@@ -958,8 +958,8 @@ register("C15", lean_modules=["FsProofs.Properties.ClosedC15", "FsProofs.Propert
          rule="single-direction graphs on random grids (+ a channel family giving basins of degree > 16), heavy ties, masks, arbitrary base levels; basin graph built with Kruskal and Boruvka, repeated updates on the same basin-graph object; edges, passes, tree compared exactly with the Lean model; oracle: independent adjacency scan + exact Kruskal weight; non-trivial = tree has at least one edge",
          trusted_base=FLOW_TB + ["std::sort tie order of Kruskal is recomputed by the harness with the same comparator and handed to the model, which validates it is a weight-sorted permutation",
                                  "m_max_low_degree regenerated from basin_graph.hpp"])
-_lvl("C15", "proof CLOSED OVER THE EXECUTED GRIDS (ClosedC15.lean): every hypothesis of the theorems above is discharged for the graph of the executed single router on any grid with EnvOk (raster, mesh, profile), leaving only run-time facts (work arrays fit; the permutation handed over passes validPerm; elevations above -DBL_MAX): grid_C15_passes (stored pass of two adjacent basins = max(f p0, f p1) of a neighbouring unmasked pair, unique per basin pair, and <= max(f i, f j) for EVERY neighbouring unmasked pair joining the two basins, in either orientation; virtual edges exactly one per further outer basin), validPerm_kruskal_msf / grid_C15_kruskal (the tree executed by union-find = Kruskal's, a spanning forest of the WHOLE stored basin graph, of minimum total weight among all spanning forests, and bottleneck-equivalent to the basin graph), grid_C15_kruskal_connects (node-level: unmasked-neighbour-connected nodes lie in tree-connected basins), grid_C15_orient / _orient_tree / _reached (rooted orientation: in-degree one, depth function, parent chain to the root, reached basins = tree component of the root), with raster_/mesh_/profile_ instances and computed non-vacuity examples (on the fan mesh the tree [5,6,7,8,0] has weight -3997 against -3996 for another forest).",
-     "Theorems about the executed basin-graph model: UNION-FIND (FsModel/UnionFind.lean transcribes utils/union_find.hpp: two-pass find with path compression, union by rank; the model driver builds the Kruskal tree it prints with it): find_spec / find_compresses / merge_spec (find returns the root, compresses exactly the path, changes no class; merge unites exactly the two classes and keeps the rank invariant) and kruskalUF_eq (Kruskal over this union-find accepts exactly the edges of the class-map Kruskal, so every theorem below transfers); connect_basins (c15_edge_sound, c15_edge_unique, c15_lowest_pass_exists, c15_lowest_pass, c15_virtual: every real edge joins a node of an inner basin to a neighbouring node of another basin with pass height max of the two elevations; one edge per basin pair; no joining pair is strictly lower than the stored pass; outer basins are linked to the first outer basin = root by virtual edges - for any topology, mask, base levels, under the block structure of the bottom-up order proved in C19); Kruskal: kruskal_sim (the executed array Kruskal accepts exactly what the abstract class-map Kruskal accepts), kruskal_exec_is_spanning_forest, kruskal_exec_min_weight (exchange argument: for a weight-sorted order the tree has minimum total pass elevation among ALL spanning forests of the edge set; validPerm_sorted ties the order the harness hands over), so #tree = #basins - #components; Boruvka (imperative, not reasoned about directly) and the implementation's own output are covered by a CERTIFICATE CHECKER evaluated by the model driver on every basin-graph scenario - certOk on the model's raw tree and certImpl on the edge array and tree REPORTED BY THE C++ - with soundness theorems certOk_sound / certImpl_sound (accepted => spanning forest of minimum total weight among all spanning forests; equal weight multiset as a Kruskal tree) and certOk_kruskal (Kruskal's own tree is always accepted). kruskal_exec_bottleneck / kruskal_minimax_iff (C15Bottleneck.lean): two basins joined by passes of height <= b in the basin graph are joined by TREE passes of height <= b (the tree is a minimax / bottleneck tree - what makes the filled level the spill level). Orientation: orient_spec (the executed depth-first orientation returns, for a forest, an arborescence from the root: every returned edge is the original or its flip, each reached basin is the head of exactly one edge, depth(head) = depth(tail) + 1, the root is never a head) and orient_reached_iff (reached = connected to the root in the tree).",
+_lvl("C15", "proof",
+     "Theorems about the executed basin-graph model: UNION-FIND (FsModel/UnionFind.lean transcribes utils/union_find.hpp: two-pass find with path compression, union by rank; the model driver builds the Kruskal tree it prints with it): find_spec / find_compresses / merge_spec (find returns the root, compresses exactly the path, changes no class; merge unites exactly the two classes and keeps the rank invariant) and kruskalUF_eq (Kruskal over this union-find accepts exactly the edges of the class-map Kruskal, so every theorem below transfers); connect_basins (c15_edge_sound, c15_edge_unique, c15_lowest_pass_exists, c15_lowest_pass, c15_virtual: every real edge joins a node of an inner basin to a neighbouring node of another basin with pass height max of the two elevations; one edge per basin pair; no joining pair is strictly lower than the stored pass; outer basins are linked to the first outer basin = root by virtual edges - for any topology, mask, base levels, under the block structure of the bottom-up order proved in C19); Kruskal: kruskal_sim (the executed array Kruskal accepts exactly what the abstract class-map Kruskal accepts), kruskal_exec_is_spanning_forest, kruskal_exec_min_weight (exchange argument: for a weight-sorted order the tree has minimum total pass elevation among ALL spanning forests of the edge set; validPerm_sorted ties the order the harness hands over), so #tree = #basins - #components; Boruvka (imperative, not reasoned about directly) and the implementation's own output are covered by a CERTIFICATE CHECKER evaluated by the model driver on every basin-graph scenario - certOk on the model's raw tree and certImpl on the edge array and tree REPORTED BY THE C++ - with soundness theorems certOk_sound / certImpl_sound (accepted => spanning forest of minimum total weight among all spanning forests; equal weight multiset as a Kruskal tree) and certOk_kruskal (Kruskal's own tree is always accepted). kruskal_exec_bottleneck / kruskal_minimax_iff (C15Bottleneck.lean): two basins joined by passes of height <= b in the basin graph are joined by TREE passes of height <= b (the tree is a minimax / bottleneck tree - what makes the filled level the spill level). Orientation: orient_spec (the executed depth-first orientation returns, for a forest, an arborescence from the root: every returned edge is the original or its flip, each reached basin is the head of exactly one edge, depth(head) = depth(tail) + 1, the root is never a head) and orient_reached_iff (reached = connected to the root in the tree). CLOSED OVER THE EXECUTED GRIDS (ClosedC15.lean): every hypothesis of the theorems above is discharged for the graph of the executed single router on any grid with EnvOk (raster, mesh, profile), leaving only run-time facts (work arrays fit; the permutation handed over passes validPerm; elevations above -DBL_MAX): grid_C15_passes (stored pass of two adjacent basins = max(f p0, f p1) of a neighbouring unmasked pair, unique per basin pair, and <= max(f i, f j) for EVERY neighbouring unmasked pair joining the two basins, in either orientation; virtual edges exactly one per further outer basin), validPerm_kruskal_msf / grid_C15_kruskal (the tree executed by union-find = Kruskal's, a spanning forest of the WHOLE stored basin graph, of minimum total weight among all spanning forests, and bottleneck-equivalent to the basin graph), grid_C15_kruskal_connects (node-level: unmasked-neighbour-connected nodes lie in tree-connected basins), grid_C15_orient / _orient_tree / _reached (rooted orientation: in-degree one, depth function, parent chain to the root, reached basins = tree component of the root), with raster_/mesh_/profile_ instances and computed non-vacuity examples (on the fan mesh the tree [5,6,7,8,0] has weight -3997 against -3996 for another forest).",
      "Lean 4 fold-invariant proof (connect_basins) + simulation + exchange-argument minimality proof + proved-sound certificate checker run on model and implementation outputs + exact correspondence of connect/Kruskal/Boruvka/orient + independent MST-weight oracle")
 
 
@@ -1103,11 +1103,11 @@ register("C13", lean_modules=["FsProofs.Properties.ClosedC12Resolve", "FsProofs.
          rule="same scenario family as C12; oracle evaluates the residual of the backward-Euler equation at every non-limited node (double arithmetic with a stated bound: tolerance + 64 eps x sensitivity-weighted magnitudes); non-trivial = some erosion is non-zero")
 for _p in ("C12", "C13"):
     PROPS[_p]["trusted_base"] = SPL_TB
-_lvl("C12", "proof AFTER THE SINK RESOLVER (ClosedC12Resolve.lean): the eroder normally runs on the graph the spanning-tree resolver returns, whose receivers AND distances were rewritten (basic: the pit drains over distance DBL_MAX to the pass node; carve: distances are shifted along the reversed path); grid_resolve_dist_pos proves every routed row of that graph stores a positive distance (fold invariant over routeBasic / carveLoop: the pit's own old distance 0 is read but never written), and grid_C12_spl_resolve (+ raster_/mesh_/profile_ instances, non-vacuity examples) gives the same five facts - returned array = final table, zero erosion at base levels / pits / masked / lake nodes, no slope reversal, lower bound -mn, exact backward-Euler residual when not limited - for that graph.",
-     "Theorems about the executed Fs.Spl.nodeStep / erode over an arbitrary linearly ordered field with abstract pow >= 0, lifted to the WHOLE sweep (sweep_final: along a duplicate-free bottom-up order every node's final erosion is the one its own step wrote, computed from receivers that were already final): erode_zero (base levels, pits, masked nodes and nodes at or below their lowest receiver's new level get zero erosion), erode_floor (the new elevation is never below the lowest new elevation among the receivers: no slope reversal, no new depression), erode_nonneg_routed (every erosion >= -tiny for K, dt >= 0 and positive distances on the routed rows - the first version, erode_nonneg, asked for positive distances on every row, which terminal rows (distance 0) never satisfy; kept only as a lemma), erode_look (the returned array is that table), for any number of receivers on the closed-form path; per-node: nodeStep_skip, nodeStep_linear, spl_floor, spl_nonneg. Non-negativity on the Newton path, the rejection of non-linear exponents on multiple-direction graphs and overflow (D13) are tied by the bit-exact correspondence and the oracle only.",
+_lvl("C12", "proof",
+     "Theorems about the executed Fs.Spl.nodeStep / erode over an arbitrary linearly ordered field with abstract pow >= 0, lifted to the WHOLE sweep (sweep_final: along a duplicate-free bottom-up order every node's final erosion is the one its own step wrote, computed from receivers that were already final): erode_zero (base levels, pits, masked nodes and nodes at or below their lowest receiver's new level get zero erosion), erode_floor (the new elevation is never below the lowest new elevation among the receivers: no slope reversal, no new depression), erode_nonneg_routed (every erosion >= -tiny for K, dt >= 0 and positive distances on the routed rows - the first version, erode_nonneg, asked for positive distances on every row, which terminal rows (distance 0) never satisfy; kept only as a lemma), erode_look (the returned array is that table), for any number of receivers on the closed-form path; per-node: nodeStep_skip, nodeStep_linear, spl_floor, spl_nonneg. Non-negativity on the Newton path, the rejection of non-linear exponents on multiple-direction graphs and overflow (D13) are tied by the bit-exact correspondence and the oracle only. AFTER THE SINK RESOLVER (ClosedC12Resolve.lean): the eroder normally runs on the graph the spanning-tree resolver returns, whose receivers AND distances were rewritten (basic: the pit drains over distance DBL_MAX to the pass node; carve: distances are shifted along the reversed path); grid_resolve_dist_pos proves every routed row of that graph stores a positive distance (fold invariant over routeBasic / carveLoop: the pit's own old distance 0 is read but never written), and grid_C12_spl_resolve (+ raster_/mesh_/profile_ instances, non-vacuity examples) gives the same five facts - returned array = final table, zero erosion at base levels / pits / masked / lake nodes, no slope reversal, lower bound -mn, exact backward-Euler residual when not limited - for that graph.",
      "Lean 4 ordered-field proofs on the executed sweep (per-node step lifted along the bottom-up order) + translator-regenerated classification/exit test + bit-exact correspondence + sign/lake/floor oracle")
-_lvl("C13", "proof AFTER THE SINK RESOLVER (ClosedC12Resolve.lean): the eroder normally runs on the graph the spanning-tree resolver returns, whose receivers AND distances were rewritten (basic: the pit drains over distance DBL_MAX to the pass node; carve: distances are shifted along the reversed path); grid_resolve_dist_pos proves every routed row of that graph stores a positive distance (fold invariant over routeBasic / carveLoop: the pit's own old distance 0 is read but never written), and grid_C12_spl_resolve (+ raster_/mesh_/profile_ instances, non-vacuity examples) gives the same five facts - returned array = final table, zero erosion at base levels / pits / masked / lake nodes, no slope reversal, lower bound -mn, exact backward-Euler residual when not limited - for that graph.",
-     "Theorems about the executed Fs.Spl.nodeStep / erode (exact arithmetic): erode_residual (closed-form path, any number of receivers: whenever the step is not limited, new - old + sum over the contributing receivers of K dt (A w)^m / distance * (new - receiver's FINAL new elevation) = 0), newton_exit / newton_none_iff (the Newton loop returns either an iterate that passes the exit test regenerated from the source - two-sided |func| <= tol - or a non-positive next iterate; none only when the fuel is exhausted), nodeStep_newton_single + spl_newton_residual + erode_newton_residual (slope exponent != 1, single receiver: the new elevation is receiver's new elevation + accepted iterate, clamped as on the linear path, and when not limited with a positive accepted iterate the backward-Euler residual new - old + K dt (A w)^m / d^n * pow(new - receiver's new, n) is within the Newton tolerance), for every positive exponent (pow abstract). Convergence of Newton (that an accepted iterate exists within the fuel) is not proved: tied by bit-exact correspondence and the residual oracle.",
+_lvl("C13", "proof",
+     "Theorems about the executed Fs.Spl.nodeStep / erode (exact arithmetic): erode_residual (closed-form path, any number of receivers: whenever the step is not limited, new - old + sum over the contributing receivers of K dt (A w)^m / distance * (new - receiver's FINAL new elevation) = 0), newton_exit / newton_none_iff (the Newton loop returns either an iterate that passes the exit test regenerated from the source - two-sided |func| <= tol - or a non-positive next iterate; none only when the fuel is exhausted), nodeStep_newton_single + spl_newton_residual + erode_newton_residual (slope exponent != 1, single receiver: the new elevation is receiver's new elevation + accepted iterate, clamped as on the linear path, and when not limited with a positive accepted iterate the backward-Euler residual new - old + K dt (A w)^m / d^n * pow(new - receiver's new, n) is within the Newton tolerance), for every positive exponent (pow abstract). Convergence of Newton (that an accepted iterate exists within the fuel) is not proved: tied by bit-exact correspondence and the residual oracle. AFTER THE SINK RESOLVER (ClosedC12Resolve.lean): the eroder normally runs on the graph the spanning-tree resolver returns, whose receivers AND distances were rewritten (basic: the pit drains over distance DBL_MAX to the pass node; carve: distances are shifted along the reversed path); grid_resolve_dist_pos proves every routed row of that graph stores a positive distance (fold invariant over routeBasic / carveLoop: the pit's own old distance 0 is read but never written), and grid_C12_spl_resolve (+ raster_/mesh_/profile_ instances, non-vacuity examples) gives the same five facts - returned array = final table, zero erosion at base levels / pits / masked / lake nodes, no slope reversal, lower bound -mn, exact backward-Euler residual when not limited - for that graph.",
      "Lean 4 field proofs of the implicit equation on the executed sweep (closed form and Newton exit) + bit-exact correspondence of the Newton path + residual oracle")
 
 
@@ -1418,6 +1418,6 @@ register("C10", gen=gen_parallel, runner=c10_runner, oracles=[oracle.c10], watch
                    "Fs.C10.par_rows_eq_seq", "Fs.C10.par_tables_eq_seq", "Fs.C10.source_nocache_per_thread", "Fs.Commute.schedules_agree", "Fs.C11.index_in_unique_block", "Fs.C11.no_stuck_state", "Fs.C11.exactly_once"],
          trusted_base=FLOW_TB + ["footprints of the per-node router task (own receiver row, own neighbour buffer) are read off the source by hand; the storage class of the pass-through neighbour buffer is regenerated by translate.py",
                                  "thread interleavings are explored by the OS scheduler under TSan/ASan and by repeated runs, not enumerated"])
-_lvl("C10", "proof AFTER THE SINK RESOLVER (ClosedC10.lean): grid_C10_kernel_resolve - the same statement for the graph the spanning-tree resolver returns (its rebuilt breadth-first levels are valid by Fs.C06.single_bfs on the SingleGraph of resolve_c01_singleRouter), on every grid with EnvOk, with non-vacuity instances.",
-     "Theorems: kernel_par_eq_seq (model of apply_kernel_par: levels in turn with a barrier, each level split by the executed block arithmetic mkBlocks into one task per worker or run by the caller below min_level_size; a node step reads the node and its receivers and writes the node: whenever the levels are duplicate-free and every receiver lies in a strictly earlier level, EVERY complete interleaving of every level, for every thread count, minimum block size and minimum level size, ends in the memory of the sequential breadth-first sweep), instantiated for the graphs the executed routers build (multi_kernel_par_eq_seq, single_kernel_par_eq_seq, using the BFS theorem of C06), kernel_par_exists (non-vacuity), blockSlices_global (per-level slices = the global-index blocks run_blocks computes); schedules_agree (non-interfering tasks end in the same memory under every interleaving); par_rows_eq_seq / par_tables_eq_seq (the model's multi-threaded router is the sequential per-node function: receivers, distances, weights, donor lists without self entries and hence the traversal orders coincide); source_nocache_per_thread (the pass-through neighbour buffer is per thread in the source, re-decided each run); with the pool theorems of C11 (each index in exactly one block, each block run exactly once, no hang). A node step is one atomic action in the model; races inside getter/func/setter and in the C++ memory model are covered by the TSan runs only.",
+_lvl("C10", "proof",
+     "Theorems: kernel_par_eq_seq (model of apply_kernel_par: levels in turn with a barrier, each level split by the executed block arithmetic mkBlocks into one task per worker or run by the caller below min_level_size; a node step reads the node and its receivers and writes the node: whenever the levels are duplicate-free and every receiver lies in a strictly earlier level, EVERY complete interleaving of every level, for every thread count, minimum block size and minimum level size, ends in the memory of the sequential breadth-first sweep), instantiated for the graphs the executed routers build (multi_kernel_par_eq_seq, single_kernel_par_eq_seq, using the BFS theorem of C06), kernel_par_exists (non-vacuity), blockSlices_global (per-level slices = the global-index blocks run_blocks computes); schedules_agree (non-interfering tasks end in the same memory under every interleaving); par_rows_eq_seq / par_tables_eq_seq (the model's multi-threaded router is the sequential per-node function: receivers, distances, weights, donor lists without self entries and hence the traversal orders coincide); source_nocache_per_thread (the pass-through neighbour buffer is per thread in the source, re-decided each run); with the pool theorems of C11 (each index in exactly one block, each block run exactly once, no hang). A node step is one atomic action in the model; races inside getter/func/setter and in the C++ memory model are covered by the TSan runs only. AFTER THE SINK RESOLVER (ClosedC10.lean): grid_C10_kernel_resolve - the same statement for the graph the spanning-tree resolver returns (its rebuilt breadth-first levels are valid by Fs.C06.single_bfs on the SingleGraph of resolve_c01_singleRouter), on every grid with EnvOk, with non-vacuity instances.",
      "Lean 4 non-interference induction over interleavings composed with the BFS-level theorem and the block arithmetic + model equality seq/par + translator flag; correspondence under ASan and TSan with sequential-vs-parallel oracle")
